@@ -16,7 +16,7 @@ from vf.xmodel import Schema, Rop, Bound, Outcome, build_api, build_loader, \
 SUPPORTS_REPLAY = True
 SHARDS = {'quick': 16, 'thorough': 64}
 TIMEOUT = {'quick': 1200, 'thorough': 7200}
-MUST_HIT = ['ShadowModel.compare', 'LinkMirror', 'Atomicity.rejected',
+MUST_HIT = ['Outcome.new', 'ShadowModel.compare', 'LinkMirror', 'Atomicity.rejected',
             'Outcome.RelateException', 'Outcome.UnrelateException',
             'Outcome.UnknownLinkException', 'Outcome.DeleteException']
 MUST_REACH = ['xtuml/meta.py:relate', 'xtuml/meta.py:unrelate', 'xtuml/meta.py:_find_link',
@@ -29,7 +29,8 @@ RULE = ('exhaustive: for each association shape (simple with every src/tgt multi
         'one, subtype/supertype sharing an identifier with a dependent class, two-attribute key) '
         'every history up to the depth bound over the shape\'s alphabet (relate/unrelate of every '
         'instance pair in referring-first order, one pair in reversed order, wrong/missing/swapped '
-        'phrase, unknown association, None argument, delete of up to three instances) on pools of '
+        'phrase, unknown association, None argument, delete of up to three instances, creation of one more '
+        'referring instance and its relate) on pools of '
         'two instances per class, oracle after the last call (every prefix is itself enumerated); '
         'random: histories of 200-2000 calls on pools of 6-10 instances, mirror after every call, '
         'full comparison every 16 calls and at the end. Non-trivial = the history passes through '
@@ -106,7 +107,7 @@ def make_pool(schema, per_class):
     return pool
 
 
-def alphabet(schema, pool, max_delete=3):
+def alphabet(schema, pool, max_delete=3, invalid_calls=True):
     '''
     operations as tuples; instance references are indexes into *pool*.
     '''
@@ -128,7 +129,8 @@ def alphabet(schema, pool, max_delete=3):
                     # the same pair named from the referred end
                     ops.append(('relate', t, s, r.rel, r.tgt_phrase))
                     ops.append(('unrelate', t, s, r.rel, r.tgt_phrase))
-                    if (r.rel, r.src, r.tgt) not in seen_pairs:
+                    # calls that are invalid whatever the multiplicities: once per family of shapes
+                    if (r.rel, r.src, r.tgt) not in seen_pairs and invalid_calls:
                         seen_pairs.add((r.rel, r.src, r.tgt))
                         ops.append(('relate', s, t, r.rel, 'no such phrase'))
                         ops.append(('relate', s, t, 99, r.src_phrase))
@@ -140,6 +142,13 @@ def alphabet(schema, pool, max_delete=3):
         if r.src == r.tgt and idx[r.src]:
             s = idx[r.src][0]
             ops.append(('relate', s, s, r.rel, r.src_phrase))
+    # instance creation inside the history: the new instance gets the next pool index and can be
+    # related to the first referred instance afterwards
+    r0 = schema.rops[0]
+    ops.append(('new', r0.src))
+    nxt = len(pool)
+    if idx[r0.tgt]:
+        ops.append(('relate', nxt, idx[r0.tgt][0], r0.rel, r0.src_phrase))
     dels = []
     for kind in idx:
         dels.append(idx[kind][0])
@@ -199,6 +208,10 @@ def step(ctx, b, handles, op, check_atomic=True):
     sh = b.shadow
     name = op[0]
     before = snapshot(b.m) if check_atomic else None
+    if name == 'new':
+        handles.append(b.new(op[1]))
+        ctx.hit('Outcome.new')
+        return Outcome.OK
     if name == 'delete':
         h = handles[op[1]]
         exp = sh.delete(h)
@@ -210,8 +223,11 @@ def step(ctx, b, handles, op, check_atomic=True):
         except Exception as e:
             got = 'unexpected %s: %s' % (type(e).__name__, e)
     else:
+        if any(i is not None and i >= len(handles) for i in (op[1], op[2])):
+            raise OutOfDomain()           # addresses an instance that was not created (yet)
         x = handles[op[1]] if op[1] is not None else None
         y = handles[op[2]] if op[2] is not None else None
+
         fn_sh = sh.relate if name == 'relate' else sh.unrelate
         fn = xtuml.relate if name == 'relate' else xtuml.unrelate
         if name == 'relate' and ((x is not None and not sh.alive[x]) or
@@ -276,6 +292,8 @@ def _run_history(ctx, schema, pool, route, hist, every):
     last = len(hist) - 1
     for n, op in enumerate(hist):
         try:
+            if op[0] == 'new' and len(handles) > len(pool) and not every:
+                raise OutOfDomain()       # enumerated histories create at most one extra instance
             out = step(ctx, b, handles, op, check_atomic=(n == last or every))
         except OutOfDomain:
             if every:
@@ -324,6 +342,8 @@ def random_history(rng, schema, pool, length):
         elif k < 0.97:
             a, b = rng.randrange(len(pool)), rng.randrange(len(pool))
             hist.append(('relate', a, b, r.rel, rng.choice((phrase_s, phrase_t, ''))))
+        elif k < 0.985:
+            hist.append(('new', rng.choice(schema.kinds())))
         else:
             hist.append(('delete', rng.randrange(len(pool))))
     # calls the schema cannot decide (same-instance or reflexive without direction) are fine:
@@ -348,7 +368,7 @@ def run(ctx):
     total = 0
     for name, schema in S:
         pool = make_pool(schema, 2)
-        ops = alphabet(schema, pool)
+        ops = alphabet(schema, pool, invalid_calls=(not name.startswith('simple-') or name == 'simple-MC-1'))
         depth = 1
         while len(ops) ** (depth + 1) <= cap and depth < 7:
             depth += 1
